@@ -83,6 +83,31 @@ let handle (stack : string) (args : string list) : string =
         (match Extract_stack.m_load st bytes with
          | BinIO.Good (f, _) -> slots.(int_of_string s) <- Some f; "LOADED"
          | BinIO.Bad _ -> "EXCEPTION")
+    | ["truncs"; h] ->
+        let bytes = unhex h in
+        let n = Stdlib.List.length bytes in
+        let b = Buffer.create n in
+        for k = 0 to n - 1 do
+          (match Extract_stack.m_load st (take k bytes) with
+           | BinIO.Good _ -> Buffer.add_char b 'L'
+           | BinIO.Bad _ -> Buffer.add_char b 'X')
+        done;
+        "T " ^ (if n = 0 then "-" else Buffer.contents b)
+    | ["segs"; s] ->
+        (* offsets of the magic / tag words (T) and of the width word (W) in the dump *)
+        (match BinIOFlip.dump_segs st (get s) with
+         | None -> "NOT_SERIALISABLE"
+         | Some sg ->
+             let off = ref 0 in
+             let out = Buffer.create 64 in
+             Stdlib.List.iter (fun g ->
+               (match g with
+                | BinIOFlip.Tag _ -> Buffer.add_string out (Printf.sprintf " T%d" !off)
+                | BinIOFlip.Wid _ -> Buffer.add_string out (Printf.sprintf " W%d" !off)
+                | BinIOFlip.Dat _ -> ());
+               off := !off + Stdlib.List.length (BinIOFlip.seg_bytes g)) sg;
+             "G" ^ Buffer.contents out ^ Printf.sprintf " E%d" !off)
+    | ["wf"; s] -> if BinIOProofs.wf_fld st (get s) then "WF" else "NOT_WF"
     | ["copy"; d; s] -> slots.(int_of_string d) <- Some (get s); "OK"
     | ["del"; d] -> slots.(int_of_string d) <- None; "OK"
     | _ -> "BAD_OP" in
